@@ -300,3 +300,7 @@ func (g *G) raceRun(seed uint64) {
 	}
 	note("race detector run clean: " + strings.TrimSpace(out))
 }
+
+func casesFail(key, what, body string) cases.GoFail {
+	return cases.GoFail{Key: key, What: what, Replay: map[string]interface{}{"api": "joinserver.NewHandler(config).ServeHTTP (POST body)", "body": body}}
+}
